@@ -808,6 +808,22 @@ func (c *TermCtx) BV2Nat(a *Term) *Term {
 		// range fact for the bridge term (stated explicitly; solvers differ in how eagerly they derive it)
 		c.bridgeSeen[t.id] = true
 		c.addBridge(t, c.ILe(c.Inti(0), t), c.ILt(t, c.Int(new(big.Int).Lsh(big.NewInt(1), uint(a.Sort.W)))))
+		// page/slot arithmetic: for 0 <= x < 2^w, int2bv(x) >> k is x div 2^k and int2bv(x) & (2^k-1) is x mod 2^k
+		if (a.Op == "bvlshr" || a.Op == "bvand") && len(a.Args) == 2 && a.Args[0].Op == "int2bv" && a.Args[1].IsConst() {
+			x := a.Args[0].Args[0]
+			w := a.Sort.W
+			inRange := c.And(c.ILe(c.Inti(0), x), c.ILt(x, c.Int(new(big.Int).Lsh(big.NewInt(1), uint(w)))))
+			k := a.Args[1].Val
+			if a.Op == "bvlshr" && k.IsInt64() && k.Int64() > 0 && k.Int64() < int64(w) {
+				c.addBridge(t, c.Implies(inRange, c.Eq(t, c.IDiv(x, c.Int(new(big.Int).Lsh(big.NewInt(1), uint(k.Int64())))))))
+			}
+			if a.Op == "bvand" {
+				k1 := new(big.Int).Add(k, big.NewInt(1))
+				if k1.Sign() > 0 && new(big.Int).And(k1, k).Sign() == 0 { // k = 2^j - 1
+					c.addBridge(t, c.Implies(inRange, c.Eq(t, c.IMod(x, c.Int(k1)))))
+				}
+			}
+		}
 	}
 	return t
 }
